@@ -116,9 +116,17 @@ package file
 //@   trusted
 //@   effect $Complete := err == nil
 
+// (call-site view of CreateODS: nil means written, flushed and closed, see its contract below)
+//@ extern github.com/celestiaorg/celestia-node/store/file.CreateODS
+//@   effect $Complete := err == nil
+
 //@ func CreateODS
 //@   property C07
-//@   effect $Complete := err == nil
+//@   noframe
+//@   requires !$FdOpen && !$Flushed && !$AllWritten && !$HdrWritten && !$RootsWritten
+//@   only os.: OpenFile Close
+//@   ensures !$FdOpen
+//@   ensures err == nil ==> $Flushed
 
 //@ func ValidateODSQ4Size
 //@   property C07
@@ -129,3 +137,62 @@ package file
 //@   property C07
 //@   trusted
 //@   effect $Complete := err == nil
+
+// The files grow only by appending writes and are closed on every path. $FdOpen: the created file
+// is open; $AllWritten: the content writer returned nil; $Flushed: the buffer was flushed without error
+// after that. A partial file is detected by its size (validators below), so nothing in the write path
+// may set a file's size other than by writing to it: the only os-level effects allowed are the
+// exclusive create and the close.
+//@ extern os.OpenFile
+//@   effect $FdOpen := err == nil
+//@ extern (*os.File).Close
+//@   effect $FdOpen := false
+//@ extern (*bufio.Writer).Flush
+//@   effect $Flushed := err == nil
+
+//@ func writeQ4
+//@   property C07
+//@   trusted
+//@   effect $AllWritten := err == nil
+
+//@ func writeODS
+//@   property C07
+//@   trusted
+//@   effect $AllWritten := err == nil
+
+//@ func writeQ4File
+//@   property C07
+//@   requires !$Flushed && !$AllWritten
+//@   only os.:
+//@   callpre bufio.Writer).Flush: $AllWritten
+//@   effect $Flushed := err == nil
+//@   ensures err == nil ==> $Flushed
+
+//@ func createQ4
+//@   property C07
+//@   noframe
+//@   requires !$FdOpen && !$Flushed && !$AllWritten
+//@   only os.: OpenFile Close
+//@   ensures !$FdOpen
+//@   ensures err == nil ==> $Flushed
+
+//@ func writeHeader
+//@   property C07
+//@   trusted
+//@   effect $HdrWritten := err == nil
+
+//@ func writeAxisRoots
+//@   property C07
+//@   trusted
+//@   effect $RootsWritten := err == nil
+
+// header, then roots, then shares, then the flush: the layout the readers and the size validator expect
+//@ func writeODSFile
+//@   property C07
+//@   requires !$Flushed && !$AllWritten && !$HdrWritten && !$RootsWritten
+//@   only os.:
+//@   callpre file.writeAxisRoots: $HdrWritten
+//@   callpre file.writeODS: $RootsWritten
+//@   callpre bufio.Writer).Flush: $AllWritten
+//@   effect $Flushed := err == nil
+//@   ensures err == nil ==> $Flushed
